@@ -19,7 +19,7 @@ nd, sigs = 0, {}
 for i, (c, o) in enumerate(zip(cases, outs)):
   if 'harness_exception' in o:
     print('HARNESS', o['harness_exception'], o['trace']); break
-  if i in mo:
+  if i in mo and 'model' in o:
     d = prop.compare(c, o, mo[i])
     if d:
       nd += 1
@@ -35,14 +35,14 @@ for i, (c, o) in enumerate(zip(cases, outs)):
               print('   step %d op=%s\n      impl =%s\n      model=%s' % (j, json.dumps(c['ops'][j])[:300], json.dumps(x)[:400], json.dumps(y)[:400]))
               print('      before=%s' % json.dumps(a['steps'][j-1]['items'] if j else a['construct'])[:300])
               break
-  f = prop.oracle(c, o)
+  f = prop.oracle(c, o) if 'model' in o else {'signature': 'impl-exception', 'what': json.dumps(o)[:300] + json.dumps(c)[:600]}
   if f:
     sigs.setdefault(f['signature'], []).append(f['what'])
 print('disagreements', nd, 'of', len(cases))
 for s, w in sorted(sigs.items()):
   print('SIG', s, len(w)); print('    ', w[0][:600])
 for i, (c, o) in enumerate(zip(cases, outs)):
-  f = prop.oracle(c, o)
-  d = prop.compare(c, o, mo[i]) if i in mo else None
+  f = prop.oracle(c, o) if 'model' in o else None
+  d = prop.compare(c, o, mo[i]) if (i in mo and 'model' in o) else None
   if f or d:
     print('CASE', json.dumps(c)); print('   compare:', (d or '')[:300])
